@@ -70,7 +70,7 @@ class C34(Check):
                   "stub": ["socket module", "DNS table", "TLS (stub context also returned by ssl.create_default_context)", "WSGI apps"]}
     assumptions = ["relative Locations are path-absolute ('/path?query'); dot-segment / sibling-relative resolution is not generated",
                    "on an https -> http redirect either an error response or an exception out of the redirect step is accepted; opening the plaintext connection is not"]
-    required_probes = ["relative", "host-change", "port-change", "http-to-https", "https-to-https", "downgrade-refused", "chain>=3", "completed", "errored-final-after-redirects", "follow-up-exchange"]
+    required_probes = ["relative", "host-change", "port-change", "http-to-https", "https-to-https", "downgrade-refused", "chain>=3", "completed", "errored-final-after-redirects", "follow-up-exchange", "redirect-with-body"]
     quick_runs = 5000
     thorough_runs = 250000
     shrink_fields = ["schedule"]
@@ -106,6 +106,10 @@ class C34(Check):
             sched.append(["c"] if r < 0.4 else ["s", s.randint(0, 5)] if r < 0.8 else ["d"])
         plan = {"hops": hops, "forms": forms, "statuses": [g.choice([301, 302, 303, 307]) for _ in range(n - 1)], "schedule": sched,
                 "final": "ok", "followup": g.random() < 0.5}
+        # redirect responses usually carry a small body ("moved to ..."): fixed length or chunked, produced over several server passes,
+        # so that the client can see the complete head of a 30x before the end of its body
+        plan["rbodies"] = [None if g.random() < 0.5 else {"pieces": [b"<moved %d.%d>" % (i, j) + b"x" * g.randint(0, 12) for j in range(g.randint(1, 3))],
+                                                           "chunked": g.random() < 0.4, "gaps": g.choice([0, 1, 1, 2])} for i in range(n - 1)]
         last = hops[-1]["server"]
         if SERVERS[last]["scheme"] == "http" and all(h["server"] != last for h in hops[:-1]) and g.random() < 0.35:
             # the last server answers the redirected request with something that does not parse (scripted raw peer instead of a Valet)
@@ -148,8 +152,22 @@ class C34(Check):
                     if h["server"] == k and h["path"] == path:
                         idx = i
                 if idx is not None and idx < n - 1:
-                    start("%d Redirect" % statuses[idx], [("Location", location(hops[idx + 1], forms[idx])), ("Content-Length", "0")])
-                    return [b""]
+                    rb = (plan.get("rbodies") or [None] * n)[idx]
+                    if not rb:
+                        start("%d Redirect" % statuses[idx], [("Location", location(hops[idx + 1], forms[idx])), ("Content-Length", "0")])
+                        return [b""]
+                    out.probe("redirect-with-body")
+                    hdrs = [("Location", location(hops[idx + 1], forms[idx]))]
+                    if not rb["chunked"]:
+                        hdrs.append(("Content-Length", str(sum(len(x) for x in rb["pieces"]))))
+                    start("%d Redirect" % statuses[idx], hdrs)
+
+                    def produce():
+                        for piece in rb["pieces"]:
+                            for _ in range(rb["gaps"]):
+                                yield b""
+                            yield bytes(piece)
+                    return produce()
                 body = b"final:%d" % (idx if idx is not None else -1)
                 start("200 OK", [("Content-Length", str(len(body)))])
                 return [body]
